@@ -106,6 +106,11 @@ class Flow:
                 if self._stop and not through_owner:
                     return False
                 return any(self._derives(a, depth + 1, seen) for a in e[2])
+            if n.endswith(MAPPERS) and len(e[2]) == 2 and adopting_closure(self.prog, e[2][1], self.summaries, self.kind):
+                # res.map(|fd| Owner(fd)): the result owns the resource
+                if self._stop and not through_owner:
+                    return False
+                return self._derives(e[2][0], depth + 1, seen)
             if n.endswith(("Try::branch", "::map_err", "::ok", "::unwrap", "::unwrap_unchecked", "::expect", "Into::into", "From::from",
                            "::as_ptr", "::cast", "::add", "::cast_mut", "::cast_const", "NonNull::<T>::new_unchecked", "NonNull::<T>::new", "::as_raw_fd")) and e[2]:
                 return self._derives(e[2][0], depth + 1, seen)
@@ -201,7 +206,16 @@ class Flow:
                         for sub in self.subs_of(e):
                             ev.setdefault(bid, []).append((i, sub, "returned to the caller", 1))
             t = b["term"]
-            if t["k"] == "call" and t["dst"]["l"] == 0 and bid != self.site:
+            adopted_here = False
+            if t["k"] == "call" and (t.get("callee") or "").endswith(MAPPERS) and len(t["args"]) == 2 and bid != self.site:
+                at = (bid, len(b["stmts"]))
+                if adopting_closure(self.prog, ctx.prov.operand(t["args"][1], at), self.summaries, self.kind):
+                    e = ctx.prov.operand(t["args"][0], at)
+                    if self.derives_raw(e):
+                        adopted_here = True
+                        for sub in self.subs_of(e):
+                            ev.setdefault(bid, []).append((10 ** 6, sub, "moved into an owner by the mapped closure", 1))
+            if t["k"] == "call" and t["dst"]["l"] == 0 and bid != self.site and not adopted_here:
                 n = t.get("callee") or ""
                 if n.endswith(("::map", "::map_err", "::and_then", "::ok", "Into::into", "From::from")) and t["args"]:
                     e = ctx.prov.operand(t["args"][0], (bid, len(b["stmts"])))
@@ -351,6 +365,8 @@ def run_one(ck, prog):
                 n_own += 1
                 e = ctx.prov.operand(o, (b["id"], i))
                 src, ok = adoption_source(prog, ctx, fn, e, cr_all)
+                if not ok and fn["kind"] == "Closure" and src.startswith("safe-fn-parameter") and closure_fed_by_creator(prog, fn, cr_all):
+                    src, ok = "created-by-the-mapped-call", True
                 ck.ob("C12.3", f"{p}|{src}", ok, fn=p, site=span_str(sp),
                       detail=f"an OwnedFd is built from {show(e)} ({src}): the descriptor is not created here and not received through an unsafe contract, so a borrowed/Copy descriptor gets closed by this owner (and again by every other copy)")
     ck.floor("C12.3", "OwnedFd construction sites", n_own, 15 if ck.config != "C" else 10)
@@ -445,6 +461,50 @@ def param_owned_everywhere(prog, fn, ai, summaries):
         return False
     r = cfg.reachable_from(0, avoid=disposing)
     return not any(rb in r for rb in cfg.return_blocks())
+
+
+MAPPERS = ("Result::<T, E>::map", "Option::<T>::map", "Result::<T, E>::and_then", "Option::<T>::and_then")
+
+
+def adopting_closure(prog, e, summaries, kind):
+    """e is a closure value whose body moves its (only) argument into an owning type: `res.map(|fd| File(OwnedFd(fd)))`"""
+    e = strip_casts(e)
+    if not (isinstance(e, tuple) and e[0] == "agg" and isinstance(e[2], str) and "{closure#" in e[2]):
+        return False
+    f = prog.fns.get(e[2])
+    if f is None or f["argc"] != 2:
+        return False
+    c = prog.ctx(f)
+    owned = summaries["owner_adts"]
+    for b in f["blocks"]:
+        if b.get("cleanup"):
+            continue
+        for i, st in enumerate(b["stmts"]):
+            if st["k"] == "assign" and st["rv"]["k"] == "agg" and st["rv"].get("adt") in owned and kind in owned[st["rv"]["adt"]]:
+                if any(mentions(c.prov.operand(o, (b["id"], i)), c.prov, lambda z: z[0] == "param" and z[1] == 2) for o in st["rv"]["ops"]):
+                    return True
+        t = b["term"]
+        if t["k"] == "call" and (t.get("callee"), kind) in summaries["takes"] and t.get("callee") not in (CLOSE, MUNMAP):
+            if any(mentions(a, c.prov, lambda z: z[0] == "param" and z[1] == 2) for a in c.args(b["id"])):
+                return True
+    return False
+
+
+def closure_fed_by_creator(prog, fn, creators):
+    """fn is a closure used only as the mapper of `creator(..).map(closure)`: its argument is the descriptor just created"""
+    cg = prog.callgraph()
+    parents = sorted(cg.callers.get(fn["path"], ()))
+    ok = False
+    for q in parents:
+        pc = prog.ctx(prog.fns[q])
+        for bb, t in pc.cfg.calls(lambda t: (t.get("callee") or "").endswith(MAPPERS)):
+            a = pc.args(bb)
+            if len(a) == 2 and isinstance(strip_casts(a[1]), tuple) and strip_casts(a[1])[0] == "agg" and strip_casts(a[1])[2] == fn["path"]:
+                if mentions(a[0], pc.prov, lambda x: x[0] == "call" and x[1] in creators):
+                    ok = True
+                else:
+                    return False
+    return ok
 
 
 def adoption_source(prog, ctx, fn, e, creators):
